@@ -151,6 +151,13 @@ func c19Counters(w *wworld.World) {
 // c19MintSide: value of a seed's deterministic outputs at the mints: sum of amounts of signed outputs whose proof is
 // UNSPENT / PENDING (read directly from the mint stores).
 func c19MintSide(w *wworld.World, wi int) (unspent, pending uint64, detail string) {
+	unspent, pending, detail, _ = c19MintSideMax(w, wi)
+	return
+}
+
+// c19MintSideMax additionally returns, per keyset, the highest counter of that seed the mint has signed.
+func c19MintSideMax(w *wworld.World, wi int) (unspent, pending uint64, detail string, maxSigned map[string]uint32) {
+	maxSigned = map[string]uint32{}
 	ww := w.Wallets[wi]
 	for _, n := range []string{"a", "b"} {
 		m := w.Mints[n]
@@ -163,6 +170,12 @@ func c19MintSide(w *wworld.World, wi int) (unspent, pending uint64, detail strin
 		}
 		for _, k := range t.Keysets {
 			gap := 0
+			// the live wallet knows how far it has counted: scan at least that far (a restore that left a hole of more than
+			// 300 counters behind must not hide what was created after the hole)
+			var known uint32
+			if ww.DB != nil {
+				known = ww.DB.Inner.GetKeysetCounter(k)
+			}
 			for c := uint32(0); c < 20000; c++ {
 				s, rhex := nut13Pair(ww.Mnemonic, k, c)
 				if s == "" {
@@ -172,12 +185,13 @@ func c19MintSide(w *wworld.World, wi int) (unspent, pending uint64, detail strin
 				amt, ok := t.Signed[b]
 				if !ok {
 					gap++
-					if gap > 350 {
-						break // beyond the 300-counter horizon of any restore: nothing of this seed can be further out
+					if gap > 350 && c >= known {
+						break // past the wallet's own counter and 350 unsigned counters in a row: nothing of this seed is further out
 					}
 					continue
 				}
 				gap = 0
+				maxSigned[k] = c
 				y := world.Y(s)
 				switch {
 				case t.Spent[y]:
@@ -232,9 +246,16 @@ func c19RestoreCheck(w *wworld.World, wi int, tag string) {
 	for _, p := range db.GetPendingProofs() {
 		rp += p.Amount
 	}
+	mu, mp, detail, maxSigned := c19MintSideMax(w, wi)
+	// the restored wallet must continue past everything the mint has already signed for this seed, whether or not
+	// those outputs are still worth anything
+	for ks, mx := range maxSigned {
+		if c := db.GetKeysetCounter(ks); c <= mx {
+			w.Viol("C19", "restored-counter-not-past-signed-counter/"+tag, "after restoring %s's mnemonic the stored counter of keyset %s is %d, but the mint has signed counter %d of that seed: the next output would be one that is already signed", ww.Name, ks[:8], c, mx)
+		}
+	}
 	db.Close()
 	os.RemoveAll(dir)
-	mu, mp, detail := c19MintSide(w, wi)
 	if rs+rp != mu+mp {
 		cls := "too-little"
 		if rs+rp > mu+mp {
@@ -283,6 +304,16 @@ func c19Specs(quick bool) []*wSpec {
 			{Prop: "C19", Name: "C19-2w1m-fee100-q", Cfg: two, Init: []string{"mint|0|16"}, Menu: c19Menu, Probe: c19Probe(false), Depth: 2, NoInvariants: true},
 			// constructed content (a single 16-sat proof, not derived from the seed): every send needs a swap
 			{Prop: "C19", Name: "C19-bigcoin-q", Cfg: two, Init: []string{"give|0|16"}, Menu: c19Menu, Probe: c19Probe(false), Depth: 2, NoInvariants: true},
+			// a drained wallet: every output of the seed is spent; restore, then go on using the wallet
+			{Prop: "C19", Name: "C19-drained-q", Cfg: wworld.Config{FeeA: 0, Wallets: []wworld.WalletCfg{{Default: "a"}, {Default: "a"}}}, Init: []string{"mint|0|4", "send|0|4|0", "recv|1|0|0"},
+				Menu: func(w *wworld.World) []string {
+					if w.Wallets[0].Gen == 0 {
+						return []string{"restore|0"}
+					}
+					return []string{"mint|0|8"}
+				}, Probe: c19Probe(false), Depth: 2, NoInvariants: true},
+			// more than 200 outputs on ONE keyset (three restore batches), restore, go on, restore again (probe)
+			{Prop: "C19", Name: "C19-three-batches-q", Cfg: two, Init: c19ThreeBatches(), Menu: func(*wworld.World) []string { return nil }, Probe: c19Probe(false), Depth: 0, NoInvariants: true},
 			{Prop: "C19", Name: "C19-long-q", Cfg: two, Init: c19LongN(11), Menu: func(*wworld.World) []string { return nil }, Probe: c19Probe(false), Depth: 0, NoInvariants: true},
 		}
 	}
@@ -291,8 +322,29 @@ func c19Specs(quick bool) []*wSpec {
 		{Prop: "C19", Name: "C19-2w1m-fee100", Cfg: two, Init: []string{"mint|0|16"}, Menu: c19Menu, Probe: c19Probe(true), Depth: 3, NoInvariants: true},
 		{Prop: "C19", Name: "C19-3w2m-fee0", Cfg: three, Init: []string{"mint|0|16"}, Menu: c19Menu, Probe: c19Probe(false), Depth: 3, NoInvariants: true},
 		{Prop: "C19", Name: "C19-bigcoin", Cfg: two, Init: []string{"give|0|16,8"}, Menu: c19Menu, Probe: c19Probe(false), Depth: 3, NoInvariants: true},
+		{Prop: "C19", Name: "C19-drained", Cfg: wworld.Config{FeeA: 0, Wallets: []wworld.WalletCfg{{Default: "a"}, {Default: "a"}}}, Init: []string{"mint|0|7", "send|0|7|0", "recv|1|0|0"},
+			Menu: func(w *wworld.World) []string {
+				if w.Wallets[0].Gen == 0 {
+					return []string{"restore|0", "mint|0|8"}
+				}
+				return []string{"mint|0|8", "send|0|3|0"}
+			}, Probe: c19Probe(false), Depth: 3, NoInvariants: true},
+		{Prop: "C19", Name: "C19-three-batches", Cfg: two, Init: c19ThreeBatches(), Menu: func(w *wworld.World) []string {
+			if w.Wallets[0].Gen < 3 {
+				return []string{"restore|0", "mint|0|7"}
+			}
+			return nil
+		}, Probe: c19Probe(false), Depth: 4, NoInvariants: true},
 		{Prop: "C19", Name: "C19-long", Cfg: two, Init: c19Long(), Menu: func(*wworld.World) []string { return nil }, Probe: c19Probe(true), Depth: 0, NoInvariants: true},
 	}
+}
+
+func c19ThreeBatches() []string {
+	var ops []string
+	for i := 0; i < 14; i++ {
+		ops = append(ops, "mint|0|32767") // 15 outputs each: 210 on one keyset
+	}
+	return append(ops, "restore|0", "mint|0|7")
 }
 
 // c19Long: more than 300 outputs on one keyset, a rotation in the middle, restore -> continue -> restore.
